@@ -311,7 +311,8 @@ class Spec:
             raise Problem("library code called libc malloc/calloc/realloc/strdup directly (%d times)" % ob["L"], "libc-direct-alloc")
         if ob["F"] > self.F:
             self.F = ob["F"]
-            raise Problem("%d block(s) of the configured allocator were released through libc free()" % ob["F"], "spki-free-libc")
+            raise Problem("%d block(s) of the configured allocator were released through libc free()" % ob["F"],
+                          "spki-free-libc" if opname in ("kfree", "end", "sync") else None)
         if ob["X"] > self.X:
             self.X = ob["X"]
             key = {"children": "children-double-free", "kget": "lookup-dangling-result", "kski": "lookup-dangling-result"}.get(opname)
